@@ -166,6 +166,22 @@ def scen_many_strings(ch, params, out):
               f"order_dependent:many_strings:{variant[0]}")
 
 
+def _deep(t, seen=()):
+    """IR type with model pointers expanded to the pointed model's fields (cycles cut)"""
+    from json_to_models.dynamic_typing import ComplexType, ModelMeta, ModelPtr
+    if isinstance(t, ModelPtr):
+        t = t.type
+    if isinstance(t, ModelMeta):
+        if t.index in seen:
+            return {"<cycle>": int}
+        return {k: _deep(v, seen + (t.index,)) for k, v in t.type.items()}
+    if isinstance(t, dict):
+        return {k: _deep(v, seen) for k, v in t.items()}
+    if isinstance(t, ComplexType):
+        return t.replace([_deep(x, seen) for x in t])
+    return t
+
+
 def scen_merge_order_real(ch, params, out):
     """registry level with the REAL comparators (small thresholds, so that models over a 4-key universe reach them): three nested
     models of chosen key sets; the classes after merging must not depend on the order in which the samples introduce them"""
@@ -181,16 +197,32 @@ def scen_merge_order_real(ch, params, out):
 
     def comparators():
         return {"p70_n2": [ModelFieldsPercentMatch(.7), ModelFieldsNumberMatch(2)], "p50_n3": [ModelFieldsPercentMatch(.5), ModelFieldsNumberMatch(3)],
-                "exact_n2": [ModelFieldsEquals(), ModelFieldsNumberMatch(2)], "default": []}[pol]
+                "exact_n2": [ModelFieldsEquals(), ModelFieldsNumberMatch(2)], "default": [],
+                "n2": [ModelFieldsNumberMatch(2)]}[pol]      # number only: one-key children are never merged
+
+    # each of the three models may own a one-key child object under the same key; the children have equal key sets (too small to
+    # be merged by the policies used) but possibly different value types, so a merged parent must refer to both of them
+    kids = ch.choose("children(x types)", [("int", "str", None), ("int", "int", "str"), ("str", None, "int"), ("int", "str", "float")]) \
+        if params.get("children") else None
+    KV = {"int": 1, "str": "long text " * 3, "float": 1.5}
+
+    def body(i):
+        o = {k: 1 for k in sets[i]}
+        if kids and kids[i]:
+            o["child"] = {"x": KV[kids[i]]}
+        return o
 
     def run(order):
-        samples = [{"rootmarker": 1, f"f{i}": {k: 1 for k in sets[i]}} for i in order]
+        from vflib import oracles
+        samples = [{"rootmarker": 1, f"f{i}": body(i)} for i in order]
         gen = MetadataGenerator()
         reg = ModelRegistry(*comparators())
         reg.process_meta_data(gen.generate(*samples), model_name="Root")
         reg.merge_models(gen)
-        return sorted(tuple(sorted(m.type)) for m in reg.models if "rootmarker" not in m.type)
-    out.info = {"sets": sets, "policy": pol, "perm": list(perm)}
+        part = sorted(tuple(sorted(m.type)) for m in reg.models if "rootmarker" not in m.type)
+        deep = sorted(oracles.canon_str(oracles.canon_ir(_deep(m.type))) for m in reg.models if "rootmarker" not in m.type)
+        return part, deep
+    out.info = {"sets": sets, "policy": pol, "perm": list(perm), "children": kids}
     try:
         a = run((0, 1, 2))
         b = run(perm)
@@ -198,7 +230,7 @@ def scen_merge_order_real(ch, params, out):
         out.fail("merge_raises", f"{type(e).__name__}: {e} sets={sets} policy={pol} perm={perm}", "merge_raises")
         return
     out.check(a == b, "order_or_repetition_dependent",
-              lambda: f"policy {pol}, nested key sets {sets}: samples in order 0,1,2 give classes {a}, in order {perm} give {b}", "order_dependent:merge_partition_real")
+              lambda: f"policy {pol}, nested key sets {sets}, children {kids}: samples in order 0,1,2 give classes {a}, in order {perm} give {b}", "order_dependent:merge_partition_real")
 
 
 def parts(tier):
@@ -207,6 +239,8 @@ def parts(tier):
                    shards=16, timeout=170, path_timeout=60, mode="CH-P+CH-E"),
                 CH("merge_order", "vflib.props.c07:scen_merge_order", {"models": 4}, shards=16, timeout=170, path_timeout=30),
                 CH("merge_order_real_comparators", "vflib.props.c07:scen_merge_order_real", {"keys": 4}, shards=16, timeout=170, path_timeout=30),
+                CH("merge_order_real_comparators_with_children", "vflib.props.c07:scen_merge_order_real", {"keys": 3, "children": True, "policies": ["n2", "p70_n2", "exact_n2"]},
+                   shards=16, timeout=170, path_timeout=30),
                 CH("order_literal_limits", "vflib.props.c07:scen_order", {"kinds": "KINDS_LITORDER", "samples": 3, "symbolic_leaves": False},
                    shards=16, timeout=170, path_timeout=60, mode="CH-E"),
                 CH("order_datetime_strings", "vflib.props.c07:scen_order", {"kinds": "KINDS_DATEORDER", "samples": 3, "symbolic_leaves": False, "registry": "datetime"},
@@ -215,6 +249,10 @@ def parts(tier):
                 CH("order_objects", "vflib.props.c07:scen_order", {"kinds": "KINDS_ORDER2", "samples": 3, "dkr": [None, "^\\d+$"], "symbolic_leaves": False},
                    shards=16, timeout=170, path_timeout=60, mode="CH-E")]
     return [CH("merge_order", "vflib.props.c07:scen_merge_order", {"models": 5}, shards=16, timeout=250, path_timeout=30),
+            CH("merge_order_real_comparators_with_children", "vflib.props.c07:scen_merge_order_real", {"keys": 4, "children": True, "policies": ["n2", "p70_n2", "exact_n2", "p50_n3"]},
+               shards=16, timeout=250, path_timeout=30),
+            CH("order_datetime_strings", "vflib.props.c07:scen_order", {"kinds": "KINDS_DATEORDER", "samples": 3, "symbolic_leaves": False, "registry": "datetime"},
+               shards=16, timeout=250, path_timeout=60, mode="CH-E"),
             CH("order_literal_limits", "vflib.props.c07:scen_order", {"kinds": "KINDS_LITORDER", "samples": 3, "symbolic_leaves": False, "merge": ["default", "p50n2"]},
                shards=16, timeout=250, path_timeout=60, mode="CH-E"),
             CH("many_strings_at_the_literal_limit", "vflib.props.c07:scen_many_strings", {"counts": [1, 2, 3, 8, 13, 14, 15, 16, 17, 30]}, shards=16, timeout=250, path_timeout=60,
